@@ -269,6 +269,9 @@ func (m *Machine) ActSend(t *rapid.T) {
 	m.Log("send", fmt.Sprintf("%d>%d %s amt=%s fee=%s call=%s", src, dst, w.TokName(src, tok), amt, fee, call), fmt.Sprintf("ok=%v", out.OK))
 	if out.OK {
 		m.R.Label("send_ok")
+		if callback == w.Moody {
+			m.R.Label(fmt.Sprintf("send_ok_with_reverting_callback(funded=%v)", w.MoodyFunded(src)))
+		}
 		for _, p := range out.Pkts {
 			m.ApplySendLedger(p)
 		}
@@ -407,6 +410,7 @@ func (m *Machine) ActAck(t *rapid.T) {
 		}
 		m.R.Label(fmt.Sprintf("ack_processed_code_%d", p.Ack.Code))
 	} else {
+		p.AckTried = true
 		m.R.Label("ack_refused")
 	}
 	m.Log("ack", fmt.Sprintf("%s code=%d", p.T, p.Ack.Code), fmt.Sprintf("ok=%v %s", o.Res.OK(), func() string {
@@ -595,6 +599,17 @@ func (m *Machine) ActFundMoody(t *rapid.T) {
 	ci := rapid.IntRange(0, len(w.Chains)-1).Draw(t, "chain")
 	if w.MoodyFunded(ci) {
 		t.Skip("already funded")
+	}
+	// funding matters after an acknowledgement was attempted against the reverting contract (can a later message now get
+	// through?); funding earlier merely turns the contract into a plain counter, so that is made rare
+	armed := false
+	for _, p := range w.Pkts {
+		if p.SrcIdx == ci && p.CallbackAddr == w.Moody && (p.Acked || p.AckTried) {
+			armed = true
+		}
+	}
+	if !armed && rapid.IntRange(0, 9).Draw(t, "early") != 0 {
+		t.Skip("no acknowledgement attempted against the reverting callback yet")
 	}
 	ok := w.FundMoody(ci, rapid.IntRange(0, len(w.Users)-1).Draw(t, "user"))
 	m.Log("fundMoody", fmt.Sprintf("chain %d", ci), fmt.Sprintf("ok=%v", ok))
